@@ -27,7 +27,10 @@ PRE = '''import TracklibVerif.Gen.Geometry
 import TracklibVerif.Gen.ObsTime
 import TracklibVerif.Gen.SpatialIndex
 import TracklibVerif.Gen.Raster
+import TracklibVerif.Gen.ObsCoords
+import TracklibVerif.Model.Geo
 open TV TV.Py
+def FT := TV.Geo.floatTrig
 instance : IntCast Float := ⟨Float.ofInt⟩
 def fFloor (x : Float) : Int := (Float.floor x).toInt64.toInt
 def fTrunc (x : Float) : Int := x.toInt64.toInt
@@ -65,7 +68,7 @@ def main():
         from tracklib.core.obs_time import ObsTime
         from tracklib.core.spatial_index import SpatialIndex
         from tracklib.core.raster import Raster
-        from tracklib.core.obs_coords import ENUCoords
+        from tracklib.core.obs_coords import ENUCoords, GeoCoords, ECEFCoords
     from types import SimpleNamespace as NS
     rng = random.Random(7)
     pool = [0.0, -0.0, 1.0, -1.0, 0.5, 2.0, 3.0, 10.0, 0.11, 1e-9, 1e9, 5.0, 7.25, float("inf"), float("nan")]
@@ -120,6 +123,23 @@ def main():
                       " ".join(lf(t) for t in (xmin, xmax, ymin, ymax)), lf(dX), lf(dY), nrow, ncol, lf(cx), lf(cy)),
                       lambda ra=ra, cx=cx, cy=cy: Raster.getCell(ra, ENUCoords(cx, cy)),
                       lambda v: "none" if v is None else "%d %d" % (v[0], v[1])))
+        lon, lat, hgt = rng.uniform(-180, 180), rng.choice([rng.uniform(-90, 90), 90.0, -90.0, 0.0]), rng.uniform(-100, 9000)
+        f3 = lambda o, names: " ".join(pf(getattr(o, k)) for k in names)
+        tests.append(("GeoCoords.toECEFCoords", "r3 (Gen.ObsCoords.GeoCoords_toECEFCoords FT.pi FT.sqrt FT.sin FT.cos FT.pow %s %s %s)" % (lf(lon), lf(lat), lf(hgt)),
+                      lambda lon=lon, lat=lat, hgt=hgt: GeoCoords(lon, lat, hgt).toECEFCoords(), lambda v: f3(v, "XYZ")))
+        ec = GeoCoords(lon, lat, hgt).toECEFCoords()
+        X, Y, Z = rng.choice([(ec.X, ec.Y, ec.Z), (0.0, 0.0, 6356752.0), (0.0, 0.0, 0.0), (rng.uniform(-7e6, 7e6), rng.uniform(-7e6, 7e6), rng.uniform(-7e6, 7e6))])
+        tests.append(("ECEFCoords.toGeoCoords", "r3 (Gen.ObsCoords.ECEFCoords_toGeoCoords FT.pi FT.sqrt FT.sin FT.cos FT.atan2 FT.pow %s %s %s)" % (lf(X), lf(Y), lf(Z)),
+                      lambda X=X, Y=Y, Z=Z: ECEFCoords(X, Y, Z).toGeoCoords(), lambda v: f3(v, ("lon", "lat", "hgt"))))
+        bl, bt = rng.uniform(-180, 180), rng.uniform(-89, 89)
+        bE = GeoCoords(bl, bt, rng.uniform(0, 500)).toECEFCoords()
+        tests.append(("ECEFCoords.toENUCoords", "r3 (Gen.ObsCoords.ECEFCoords_toENUCoords FT.pi FT.sqrt FT.sin FT.cos FT.atan2 FT.pow %s %s %s %s %s %s)" % (
+                      lf(X), lf(Y), lf(Z), lf(bE.X), lf(bE.Y), lf(bE.Z)),
+                      lambda X=X, Y=Y, Z=Z, bE=bE: ECEFCoords(X, Y, Z).toENUCoords(bE), lambda v: f3(v, "ENU")))
+        e_, n_, u_ = rng.uniform(-5e4, 5e4), rng.uniform(-5e4, 5e4), rng.uniform(-100, 3000)
+        tests.append(("ENUCoords.toECEFCoords", "r3 (Gen.ObsCoords.ENUCoords_toECEFCoords FT.pi FT.sqrt FT.sin FT.cos FT.atan2 FT.pow %s %s %s %s %s %s)" % (
+                      lf(e_), lf(n_), lf(u_), lf(bE.X), lf(bE.Y), lf(bE.Z)),
+                      lambda e_=e_, n_=n_, u_=u_, bE=bE: ENUCoords(e_, n_, u_).toECEFCoords(bE), lambda v: f3(v, "XYZ")))
         yr = rng.choice([rng.randint(-50, 2500), rng.choice([1900, 2000, 2100, 1600, 4, 100, 400, 0])])
         tests.append(("isLeapYear", "rb (Gen.ObsTime.isLeapYear (%d))" % yr, lambda yr=yr: ObsTime.isLeapYear(yr), lambda v: "true" if v else "false"))
     src = PRE + "".join("#eval IO.println (%s)\n" % t[1] for t in tests)
